@@ -1,4 +1,5 @@
 import AlgopyVerif.Proofs.Interp
+import AlgopyVerif.Proofs.GammaUnivariate
 /-!
 # C15 — exact-interpolation coefficients reconstruct mixed partial derivatives
 
@@ -7,7 +8,10 @@ import AlgopyVerif.Proofs.Interp
 * `Gamma_identity_N_d`: `Σ_j Γ[i,j]·ray_j^α = δ(i,α)` for all multi-indices `i, α` of degree
   `d`, **proved by kernel evaluation over `Rat`** (`decide +kernel`, no axioms) for every
   `(N, d)` of the table below (heavier entries `(4,4), (3,5), (5,3)` in `Props/C15Big.lean`,
-  built in the thorough tier).  The statement for unbounded `(N, d)` is not proved
+  built in the thorough tier).
+* `Gamma_identity_one_variable`: for **one variable the identity holds for every degree** `d ≥ 1` (no bound), by proof:
+  `Γ = γ(d,d) = d^{-d}` (`Gamma_one_variable_value`) since the `d`-th forward difference of `x^d` is `d!`.
+  The statement for unbounded `(N, d)` with `N ≥ 2` is not proved
   (`Gamma_identity` for all `N, d` remains open: partial) — the property's own quantifier asks
   for exhaustive exploration up to a bound in exact rational arithmetic, which this delivers
   with the kernel as the checker.
@@ -21,6 +25,13 @@ theorem multi_indices_complete (N d : Nat) (i : List Nat) :
 
 /-- … exactly once -/
 theorem multi_indices_nodup (N d : Nat) : (multiIndices N d).Nodup := nodup_multiIndices N d
+
+/-- **one variable, EVERY degree** (no bound): the identity `Σ_j Γ[i,j]·ray_j^α = δ(i,α)` holds on the model for `N = 1` and all
+`d ≥ 1` — there `Γ = γ(d,d) = d^{-d}`, because the `d`-th forward difference of `x^d` is `d!` -/
+theorem Gamma_identity_one_variable (d : Nat) (hd : 0 < d) : checkIdentity 1 d = true := checkIdentity_one d hd
+
+/-- the value of the single entry of Γ for one variable -/
+theorem Gamma_one_variable_value (d : Nat) (hd : 0 < d) : gamma [d] [d] = 1 / (d : ℚ) ^ d := gamma_single d hd
 
 theorem Gamma_identity_1_1 : checkIdentity 1 1 = true := by decide +kernel
 theorem Gamma_identity_1_2 : checkIdentity 1 2 = true := by decide +kernel
